@@ -361,12 +361,42 @@ class Generator:
             rules["R4"] = rules.get("R4", 0) + 1
         if it.body_open is not None:
             strip_inner_attrs(src, it.body_open + 1, src.match[it.body_open], ed, rules)
+        if kind == "enum" and "keep" in opts and it.body_open is not None:
+            # R9 for enums: keep only the named variants (the others are listed as dropped)
+            keep = opts["keep"].split()
+            o, c = it.body_open, src.match[it.body_open]
+            i = o + 1
+            seen, dropped = [], []
+            while i < c:
+                v0 = i
+                while src.is_p(i, "#") and src.is_p(i + 1, "["):
+                    i = src.match[i + 1] + 1
+                if not src.is_id(i):
+                    raise LostAnchor("%s: cannot parse variants of %s" % (file, path[-1]))
+                name = s[i].text
+                j = i + 1
+                while j < c and not src.is_p(j, ","):
+                    j = src.skip_group(j)
+                vend = s[j].end if j < c else s[j - 1].end
+                if name in keep:
+                    seen.append(name)
+                else:
+                    dropped.append(name)
+                    ed.replace(s[v0].start, vend, "", 4)
+                    rules["R9"] = rules.get("R9", 0) + 1
+                i = j + 1
+            for k in keep:
+                if k not in seen:
+                    raise LostAnchor("%s: enum %s has no variant %s" % (file, path[-1], k))
+            extra_meta = {"variants_kept": seen, "variants_dropped": dropped}
+        else:
+            extra_meta = None
         derive = opts.get("derive")
         if derive:
             self.out.emit("#[derive(%s)]\n" % ", ".join(derive.split()), "template", rel, lineno)
         self.emit_chunks(ed.render(), src)
         self.out.emit("\n", "template", rel, lineno)
-        self.items.append(self.item_meta(src, file, path, it, rules))
+        self.items.append(self.item_meta(src, file, path, it, rules, extra_meta))
 
     def item_meta(self, src, file, path, it, rules, extra=None):
         s = src.sig
